@@ -6,7 +6,7 @@
 package safehtml
 
 //@ func consumeNotIn(str string, mask [256]bool) (consumed, rest string)
-//@   serves C12 C08
+//@   serves C12 C08 C02
 //@   ensures split: len(consumed) + len(rest) == len(str)
 //@   ensures cview: subview(consumed, str, 0, len(consumed))
 //@   ensures rview: len(rest) == 0 || subview(rest, str, len(consumed), len(str))
@@ -18,7 +18,7 @@ package safehtml
 //@     decreases n - i
 
 //@ func consumeIn(str string, mask [256]bool) (consumed, rest string)
-//@   serves C12 C08
+//@   serves C12 C08 C02
 //@   ensures split: len(consumed) + len(rest) == len(str)
 //@   ensures cview: subview(consumed, str, 0, len(consumed))
 //@   ensures rview: len(rest) == 0 || subview(rest, str, len(consumed), len(str))
@@ -51,7 +51,7 @@ package safehtml
 //@   ensures drop: !inlang(URLAccept, url) ==> seqeq(r.str, "about:invalid#zGoSafez")
 
 //@ func appendURLToSet(url string, buffer *bytes.Buffer) ()
-//@   serves C12 C08
+//@   serves C12 C08 C02
 //@   option uses C12.leading_comma_encoded C12.trailing_comma_encoded C12.both_commas_encoded
 //@   requires len(url) > 0
 //@   ensures layout: seqeq(seq(buffer), cat(old(seq(buffer)), commaenc(url)))
@@ -59,14 +59,14 @@ package safehtml
 //@   ensures grows: len(buffer) > old(len(buffer))
 
 //@ func isOptionalSrcMetadataWellFormed(metadata string) (r bool)
-//@   serves C12 C08
+//@   serves C12 C08 C02
 //@   option uses C12.unit_letter_is_float_char
 //@   ensures float: r && len(metadata) > 0 ==> inlang(FloatChars, metadata)
 //@   ensures optional: len(metadata) == 0 ==> r
 //@   ensures alphabet: r && len(metadata) > 0 ==> inlang(FloatChars, sub(metadata, 0, len(metadata) - ite(isasciiletter(metadata[len(metadata)-1]), 1, 0)))
 
 //@ func URLSetSanitized(str string) (r URLSet)
-//@   serves C12 C08
+//@   serves C12 C08 C02
 //@   option casesplit true
 //@   option uses C12.first_url C12.first_url_descriptor C12.next_url C12.next_url_descriptor C12.placeholder_is_canonical
 //@   ensures nonempty: len(r.str) > 0
